@@ -277,10 +277,10 @@ Proof.
   - rewrite (tokenized_values_only _ _ (V _ outs)). reflexivity.
 Qed.
 
-Lemma convert_with_ext : forall enc enc' target cols,
-  (forall c, enc c = enc' c) -> convert_with enc target cols = convert_with enc' target cols.
+Lemma convert_from_ext : forall enc enc' target cols names,
+  (forall c, enc c = enc' c) -> convert_from enc target cols names = convert_from enc' target cols names.
 Proof.
-  intros enc enc' target cols H. unfold convert_with.
+  intros enc enc' target cols names0 H. unfold convert_from.
   assert (X : forall names : sdict (list name),
     mapM (fun e => xs <- mapM (fun col => c <- get_col cols col ;; enc c) (snd e) ;; Some (fst e, xs)) names =
     mapM (fun e => xs <- mapM (fun col => c <- get_col cols col ;; enc' c) (snd e) ;; Some (fst e, xs)) names).
@@ -289,6 +289,10 @@ Proof.
   rewrite X.
   destruct target as [t|]; [|reflexivity]. destruct (get_col cols t); [rewrite H|]; reflexivity.
 Qed.
+
+Lemma convert_with_ext : forall enc enc' target cols,
+  (forall c, enc c = enc' c) -> convert_with enc target cols = convert_with enc' target cols.
+Proof. intros. unfold convert_with. apply convert_from_ext. assumption. Qed.
 
 Lemma convert_relabel : forall {L L'} (leqb : L -> L -> bool) (leqb' : L' -> L' -> bool) target
   (df : frame L) (df' : frame L'),
@@ -398,6 +402,35 @@ Qed.
 Definition forward_group (enc : rawcol -> option encoded) (cols : list (name * rawcol)) (names : list name)
   : option (list encoded) := mapM (fun col => c <- get_col cols col ;; enc c) names.
 
+Lemma convert_from_inv : forall enc target cols N t,
+  convert_from enc target cols N = Some t ->
+  exists feat_dict y,
+    target_y enc cols target = Some y /\
+    merge_feat (MkTF feat_dict N y) = Some t /\
+    tf_validate (MkTF feat_dict N y) = Some (MkTF feat_dict N y) /\
+    forall k, match sd_get N k with
+              | Some names => exists xs f, forward_group enc cols names = Some xs /\ assemble k xs = Some f /\
+                                           sd_get feat_dict k = Some f
+              | None => sd_get feat_dict k = None
+              end.
+Proof.
+  intros enc target cols N t H. unfold convert_from in H.
+  destruct (mapM _ N) as [xs_dict|] eqn:E1; [|discriminate]. cbn [obind] in H.
+  destruct (mapM _ xs_dict) as [feat_dict|] eqn:E2; [|discriminate]. cbn [obind] in H.
+  fold (target_y enc cols target) in H.
+  destruct (target_y enc cols target) as [y|] eqn:Ey; [|discriminate]. cbn [obind] in H.
+  destruct (tf_validate _) as [t0|] eqn:Ev; [|discriminate]. cbn [obind] in H.
+  assert (t0 = MkTF feat_dict N y).
+  { unfold tf_validate in Ev. destruct (_ && _) in Ev; [|discriminate]. injection Ev as <-. reflexivity. }
+  subst t0. exists feat_dict, y. repeat split; try assumption.
+  intro k.
+  pose proof (mapM_dict_get (fun _ names => forward_group enc cols names) _ _ E1 k) as G1.
+  pose proof (mapM_dict_get (fun st xs => assemble st xs) _ _ E2 k) as G2.
+  destruct (sd_get N k) as [names|].
+  - destruct G1 as [xs [F1 S1]]. rewrite S1 in G2. destruct G2 as [f [F2 S2]]. exists xs, f. auto.
+  - rewrite G1 in G2. exact G2.
+Qed.
+
 Lemma convert_with_inv : forall enc target cols t,
   convert_with enc target cols = Some t ->
   exists feat_dict y,
@@ -409,23 +442,7 @@ Lemma convert_with_inv : forall enc target cols t,
                                            sd_get feat_dict k = Some f
               | None => sd_get feat_dict k = None
               end.
-Proof.
-  intros enc target cols t H. unfold convert_with in H. fold (init_names cols target) in H.
-  destruct (mapM _ (init_names cols target)) as [xs_dict|] eqn:E1; [|discriminate]. cbn [obind] in H.
-  destruct (mapM _ xs_dict) as [feat_dict|] eqn:E2; [|discriminate]. cbn [obind] in H.
-  fold (target_y enc cols target) in H.
-  destruct (target_y enc cols target) as [y|] eqn:Ey; [|discriminate]. cbn [obind] in H.
-  destruct (tf_validate _) as [t0|] eqn:Ev; [|discriminate]. cbn [obind] in H.
-  assert (t0 = MkTF feat_dict (init_names cols target) y).
-  { unfold tf_validate in Ev. destruct (_ && _) in Ev; [|discriminate]. injection Ev as <-. reflexivity. }
-  subst t0. exists feat_dict, y. repeat split; try assumption.
-  intro k.
-  pose proof (mapM_dict_get (fun _ names => forward_group enc cols names) _ _ E1 k) as G1.
-  pose proof (mapM_dict_get (fun st xs => assemble st xs) _ _ E2 k) as G2.
-  destruct (sd_get (init_names cols target) k) as [names|].
-  - destruct G1 as [xs [F1 S1]]. rewrite S1 in G2. destruct G2 as [f [F2 S2]]. exists xs, f. auto.
-  - rewrite G1 in G2. exact G2.
-Qed.
+Proof. intros enc target cols t H. exact (convert_from_inv _ _ _ _ _ H). Qed.
 
 (* ------------------------------------------------------------------------- *)
 (* the final schema *)
@@ -945,4 +962,100 @@ Lemma convert_no_target : forall {L} (leqb : L -> L -> bool) (df : frame L) t,
 Proof.
   intros L leqb df t H. unfold convert in H. destruct (convert_schema _ _ _ _ H) as (_ & _ & _ & _ & Y).
   simpl in Y. congruence.
+Qed.
+
+(* ------------------------------------------------------------------------- *)
+(* the converter as an object with state: later calls *)
+Lemma initial_aligned_gen : forall enc cols N feat_dict y,
+  (forall k, match sd_get N k with
+             | Some names => exists xs f, forward_group enc cols names = Some xs /\ assemble k xs = Some f /\
+                                          sd_get feat_dict k = Some f
+             | None => sd_get feat_dict k = None
+             end) ->
+  aligned enc cols (MkTF feat_dict N y).
+Proof.
+  intros enc cols N feat_dict y H k. specialize (H k). cbn [tf_names tf_feats].
+  destruct (sd_get N k) as [names|].
+  - destruct H as (xs & f & H1 & H2 & H3). rewrite H3. destruct f as [fc|d]; [|exact I].
+    eapply forward_group_cols; [exact H1 | eapply assemble_cols; exact H2].
+  - rewrite H. exact I.
+Qed.
+
+Lemma keys_agree_gen : forall enc cols N feat_dict,
+  (forall k, match sd_get N k with
+             | Some names => exists xs f, forward_group enc cols names = Some xs /\ assemble k xs = Some f /\
+                                          sd_get feat_dict k = Some f
+             | None => sd_get feat_dict k = None
+             end) ->
+  forall k, sd_get N k = None <-> sd_get feat_dict k = None.
+Proof.
+  intros enc cols N F H k. specialize (H k). destruct (sd_get N k).
+  - destruct H as (xs & f & _ & _ & H3). rewrite H3. split; discriminate.
+  - rewrite H. tauto.
+Qed.
+
+Lemma convert_from_aligned : forall enc target cols N t,
+  convert_from enc target cols N = Some t -> aligned enc cols t.
+Proof.
+  intros enc target cols N t H. destruct (convert_from_inv _ _ _ _ _ H) as (F & y & _ & Hm & _ & Hk).
+  eapply merge_feat_aligned; [|exact Hm]. apply initial_aligned_gen. exact Hk.
+Qed.
+
+(* a call from a state without child groups returns that state unchanged as its names *)
+Lemma convert_from_merged_state : forall enc target cols N t,
+  sd_get N st_text_embedded = None -> sd_get N st_image_embedded = None ->
+  convert_from enc target cols N = Some t ->
+  tf_names t = N /\ target_y enc cols target = Some (tf_y t).
+Proof.
+  intros enc target cols N t Ht Hi H. destruct (convert_from_inv _ _ _ _ _ H) as (F & y & Hy & Hm & _ & Hk).
+  pose proof (keys_agree_gen _ _ _ _ Hk) as KA.
+  rewrite merge_feat_two_steps in Hm. cbn [tf_feats] in Hm. unfold merge_child, sd_mem in Hm.
+  rewrite (proj1 (KA st_text_embedded) Ht), (proj1 (KA st_image_embedded) Hi) in Hm.
+  injection Hm as <-. split; [reflexivity | exact Hy].
+Qed.
+
+Lemma col_of_functional : forall enc cols nm c1 c2, col_of enc cols nm c1 -> col_of enc cols nm c2 -> c1 = c2.
+Proof. intros enc cols nm c1 c2 [a [G1 E1]] [b [G2 E2]]. congruence. Qed.
+
+Lemma Forall2_functional : forall {A B} (R : A -> B -> Prop) l r1 r2,
+  (forall a b1 b2, R a b1 -> R a b2 -> b1 = b2) -> Forall2 R l r1 -> Forall2 R l r2 -> r1 = r2.
+Proof.
+  intros A B R l r1 r2 F H1. revert r2. induction H1 as [|a b l r1 Hab H1 IH]; intros r2 H2; inversion H2; subst.
+  - reflexivity.
+  - f_equal; [eapply F; eassumption | apply IH; assumption].
+Qed.
+
+(* the second call: same names (exactly, in the same order), same y, and the same data in every group of columns *)
+Lemma second_call_equal : forall enc target cols t t',
+  convert_with enc target cols = Some t ->
+  convert_from enc target cols (tf_names t) = Some t' ->
+  tf_names t' = tf_names t /\ tf_y t' = tf_y t /\
+  forall k fc fc', sd_get (tf_feats t) k = Some (FCols fc) -> sd_get (tf_feats t') k = Some (FCols fc') -> fc = fc'.
+Proof.
+  intros enc target cols t t' H H'.
+  destruct (convert_schema _ _ _ _ H) as (Ht & Hi & _ & _ & Hy).
+  destruct (convert_from_merged_state _ _ _ _ _ Ht Hi H') as [Hn Hy'].
+  split; [exact Hn|]. split; [congruence|].
+  intros k fc fc' E E'.
+  pose proof (convert_aligned _ _ _ _ H k) as A. pose proof (convert_from_aligned _ _ _ _ _ H' k) as A'.
+  rewrite Hn in A'. rewrite E in A. rewrite E' in A'.
+  destruct (sd_get (tf_names t) k) as [names|]; [|contradiction].
+  eapply Forall2_functional; [apply col_of_functional | exact A | exact A'].
+Qed.
+
+(* after the first call the converter's state is a fixed point: every later call starts from, and leaves, the same
+   dict, so all later calls return literally the same frame *)
+Lemma later_calls_identical : forall enc target cols t k frames,
+  convert_with enc target cols = Some t ->
+  converter_calls enc target cols k (tf_names t) = Some frames ->
+  forall t', In t' frames -> convert_from enc target cols (tf_names t) = Some t' /\ tf_names t' = tf_names t.
+Proof.
+  intros enc target cols t k. induction k as [|k IH]; intros frames H Hc t' Hin.
+  - simpl in Hc. injection Hc as <-. destruct Hin.
+  - cbn [converter_calls] in Hc. unfold converter_call in Hc.
+    destruct (convert_from enc target cols (tf_names t)) as [t1|] eqn:E1; [|discriminate]. cbn [obind fst snd] in Hc.
+    destruct (second_call_equal _ _ _ _ _ H E1) as [Hn _]. rewrite Hn in Hc.
+    destruct (converter_calls enc target cols k (tf_names t)) as [rest|] eqn:Er; [|discriminate].
+    injection Hc as <-. destruct Hin as [<-|Hin]; [split; [reflexivity | exact Hn]|].
+    exact (IH rest H eq_refl t' Hin).
 Qed.
